@@ -63,7 +63,7 @@ func (m *monC08) Step(f *Flow) {
 	if m.reported == nil {
 		m.reported, m.reqDone, m.pubDone = map[int]bool{}, map[int]bool{}, map[int]bool{}
 	}
-	for _, c := range w.AllConns {
+	for _, c := range f.recentConns() {
 		if c.ParseErr != nil && !m.reported[c.id] {
 			m.reported[c.id] = true
 			w.Violate("C08", "malformed-stream", "parse", "conn%d: bytes written are not a sequence of whole packets: %v (offset %d of %d)", c.id, c.ParseErr, c.parsed, len(c.C2B))
@@ -328,7 +328,7 @@ func (m *monC18) Step(f *Flow) {
 		m.established, m.checked = map[int]bool{}, map[int]bool{}
 	}
 	w := f.W
-	for _, c := range w.AllConns {
+	for _, c := range f.recentConns() {
 		if m.checked[c.id] {
 			continue
 		}
@@ -339,7 +339,7 @@ func (m *monC18) Step(f *Flow) {
 		}
 	}
 	// a refused connection must be closed by the client
-	for _, c := range w.AllConns {
+	for _, c := range f.recentConns() {
 		if c.Gen != w.Gen || m.checked[-1-c.id] {
 			continue
 		}
@@ -358,14 +358,15 @@ func (m *monC18) Step(f *Flow) {
 
 func (m *monC18) Final(f *Flow) {
 	w := f.W
-	for _, c := range m.refused {
-		found := false
-		for i, e := range f.ReaderErrs {
-			if mqtt.IsConnectionRefused(e) && f.ReaderErrSteps[i] >= c.ConnackStep {
-				found = true
-			}
+	var refusedSteps []int
+	for i, e := range f.ReaderErrs {
+		if mqtt.IsConnectionRefused(e) {
+			refusedSteps = append(refusedSteps, f.ReaderErrSteps[i])
 		}
-		if !found && w.Inconcl == "" && f.QStartStep != 0 {
+	}
+	for _, c := range m.refused {
+		k := sort.SearchInts(refusedSteps, c.ConnackStep)
+		if k == len(refusedSteps) && w.Inconcl == "" && f.QStartStep != 0 {
 			w.Violate("C18", "refused-error", fmt.Sprintf("rc%d", c.Sent[0].RC), "conn%d was refused with return code %d but ReadSlices reported no IsConnectionRefused error afterwards", c.id, c.Sent[0].RC)
 		}
 	}
@@ -705,12 +706,9 @@ func (m *monC11) Step(f *Flow) {
 			isSE := errors.As(r.Err, &se)
 			if r.Err == nil || isSE {
 				var ans *SentPkt
-				for _, c := range w.AllConns {
-					for i := range c.Sent {
-						sp := &c.Sent[i]
-						if sp.Type == want && sp.ID == r.ID && r.WireStep != 0 && sp.Step >= r.WireStep && c.HandStep[i] != 0 && c.HandStep[i] <= r.Ret {
-							ans = sp
-						}
+				for _, h := range f.HandedAcks(want, r.ID) {
+					if r.WireStep != 0 && h.SentStep >= r.WireStep && h.HandStep <= r.Ret {
+						ans = &h.C.Sent[h.Idx]
 					}
 				}
 				if ans == nil {
